@@ -4,7 +4,7 @@
  * "join while running" are forced by the script and not left to chance.
  *
  * main script lines:
- *   keynew K F | keyfree K | refchurn H K | new H J | go H S | waitst H S | ref H | unref H | join H
+ *   keynew K F | keyfree K | refchurn H K | newfast H J | new H J | go H S | waitst H S | ref H | unref H | join H
  *   tset K V | trepl K V | tget K | epoch
  *   T H: <op> ...     sub-script of thread H (before "new H"): tset K V | trepl K V | tget K | write V | exit C | ret
  * thread life: [gate 1] start event, ops in order, write, [gate 2] exit/ret
@@ -99,6 +99,25 @@ static void *ur_fn (void *arg) {
 	vtm_close ();
 	return NULL;
 }
+/* the creating thread is held up for 2 ms right after it released a spinlock inside p_uthread_create (link-time wrapper; no result changes): a thread
+ * that runs and exits at once does so before the creating call has finished its bookkeeping */
+static __thread int delay_after_unlock;
+pboolean __real_p_spinlock_unlock (PSpinLock *s);
+pboolean __wrap_p_spinlock_unlock (PSpinLock *s) { pboolean r = __real_p_spinlock_unlock (s); if (delay_after_unlock) { struct timespec ts = { 0, 2000000 }; nanosleep (&ts, NULL); } return r; }
+static int fast_code (int h) { return (h % 2 ? 1 : -1) * (100 + h); }
+static void *fast_fn (void *arg) {
+	int h = (int) (long) arg;
+	my_h = h; ensure_fp ();
+	VTM ("\"e\":\"start\",\"h\":%d,\"curok\":1", h);
+	cellv[h] = 900 + h; VTM ("\"e\":\"twrite\",\"h\":%d,\"v\":%d", h, 900 + h);
+	VTM ("\"e\":\"exit\",\"h\":%d,\"code\":%d", h, fast_code (h));
+	fflush (vtm_fp);
+	p_atomic_int_set (&state[h], 3);
+	p_uthread_exit (fast_code (h));
+	VTM ("\"e\":\"exitreturned\",\"h\":%d", h);       /* p_uthread_exit does not return: no spec action explains this event */
+	fflush (vtm_fp);
+	return NULL;
+}
 static void *thread_fn (void *arg) {
 	int h = (int) (long) arg, i, k; long myval[MAXK] = { 0 };
 	my_h = h; ensure_fp ();
@@ -139,6 +158,15 @@ int main (int argc, char **argv) {
 		if (line[0] == 'T') { int h; TOp o; memset (&o, 0, sizeof o); if (sscanf (line, "T %d: %7s %d %d", &h, o.op, &o.a, &o.b) >= 2) tops[h][ntops[h]++] = o; continue; }
 		if (sscanf (line, "%31s %d %d", op, &a, &b) < 1) continue;
 		if (!strcmp (op, "keynew")) { keys[a] = p_uthread_local_new (b ? DF[a] : NULL); keyf[a] = b; keyused[a] = 1; VTM ("\"e\":\"keynew\",\"k\":%d,\"f\":%d", a, b); }
+		else if (!strcmp (op, "newfast")) {         /* newfast H J: the thread calls p_uthread_exit at once - while the creating call is still on its way back */
+			gate[a] = 0; state[a] = 0;
+			VTM ("\"e\":\"create\",\"h\":%d,\"j\":%d", a, b);          /* logged first: the thread's own events come before the creating call returns */
+			delay_after_unlock = 1;
+			hd[a] = p_uthread_create ((PUThreadFunc) fast_fn, (ppointer) (long) a, b ? TRUE : FALSE, NULL);
+			delay_after_unlock = 0;
+			if (!hd[a]) { fprintf (stderr, "thread create failed\n"); return 3; }
+			haddr[a] = hd[a]; p_atomic_int_inc (&ncreated);
+		}
 		else if (!strcmp (op, "new")) {
 			gate[a] = 0; state[a] = 0;
 			hd[a] = p_uthread_create ((PUThreadFunc) thread_fn, (ppointer) (long) a, b ? TRUE : FALSE, NULL);
